@@ -1,5 +1,6 @@
 import LexVerif.Spec.StdFloat
 import LexVerif.Props.C05
+import LexVerif.Proof.RoundNEStep
 /-!
 # C19 — lossy float parsing changes only precision (property theorems)
 
@@ -10,9 +11,10 @@ Algorithm level, power-of-two radices (model `Model.Binary`):
 * `lossy_pow2_exact` — under `lossy`, `binary` always answers, and with `roundNE (mantissa·base^exponent)`:
   for an untruncated mantissa the lossy result **is** the correctly rounded one;
 * `lossy_pow2_agrees` — whenever the non-lossy `binary` decides, both answers are the same float;
-* `lossy_pow2_neighbour` — full statement (a `Prop`): for a truncated mantissa the lossy answer is the float
-  at or immediately below the correctly rounded one; proved part `lossy_pow2_bracket_partial`: it is
-  `≤` the correctly rounded float of every value in `[M, M+1]·base^e` and `≥` nothing smaller than `roundNE (M·base^e)`.
+* `lossy_pow2_neighbour` — **complete**: for a truncated mantissa (at least `p` bits) the lossy answer is the
+  correctly rounded float of the true value or the pattern immediately below it (`Proof.RoundNEStep`: a relative
+  change of at most `2^−p` moves `roundNE` by at most one pattern); `lossy_pow2_bracket_partial`: the bracket
+  without the size hypothesis.
 -/
 namespace LexVerif.Props.C19
 open LexVerif.Spec LexVerif.Model
@@ -84,17 +86,48 @@ theorem lossy_pow2_agrees {F : FTy} {p eb : Nat} (lay : Layout F p eb) {base : N
   rw [hl] at h1; injection h1 with h1; subst h1
   rw [h3, binary_exact lay hb n false hm he.1 he.2 hmk h hv]
 
-/-- **`lossy_pow2_neighbour` — full statement** (a `Prop`): for a truncated mantissa `M` (at least `p + 1`
-significant bits) and any true value `x ∈ [M, M+1)·base^e`, the lossy answer is `roundNE x` or the float just
-below it. -/
-def lossy_pow2_neighbour : Prop :=
-  ∀ (F : FTy) (p eb : Nat), Layout F p eb → ∀ (base : Nat), IsPow2 base → ∀ (n : Num),
-    2 ^ p ≤ n.mantissa → n.mantissa + 1 < 2 ^ 64 → ExpInRange n.exponent →
-    ∀ (num den : Nat), 0 < den →
-      (powFrac base n.exponent n.mantissa).1 * den ≤ num * (powFrac base n.exponent n.mantissa).2 →
-      num * (powFrac base n.exponent (n.mantissa + 1)).2 < (powFrac base n.exponent (n.mantissa + 1)).1 * den →
-      ∃ fp, Binary.binary F base n true = .ok fp ∧ 0 ≤ fp.exp ∧
-        (extendedToFloat F fp = roundNE F.fmt num den ∨ extendedToFloat F fp + 1 = roundNE F.fmt num den)
+/-- **`lossy_pow2_neighbour`** (**complete**): for a truncated mantissa `M ≥ 2^p` (a `u64_step`-digit mantissa
+has at least 55 bits) and any true value `x ∈ [M, M+1)·base^e`, the lossy answer is `roundNE x` or the pattern
+just below it: lossy parsing in a power-of-two radix is off by at most one unit in the last place, and only
+downwards. -/
+theorem lossy_pow2_neighbour {F : FTy} {p eb : Nat} (lay : Layout F p eb) {base : Nat} (hb : IsPow2 base)
+    (n : Num) (hM : 2 ^ p ≤ n.mantissa) (hm : n.mantissa + 1 < 2 ^ 64) (he : ExpInRange n.exponent)
+    (num den : Nat) (hd : 0 < den)
+    (hlo : (powFrac base n.exponent n.mantissa).1 * den ≤ num * (powFrac base n.exponent n.mantissa).2)
+    (hhi : num * (powFrac base n.exponent (n.mantissa + 1)).2 < (powFrac base n.exponent (n.mantissa + 1)).1 * den) :
+    ∃ fp, Binary.binary F base n true = .ok fp ∧ 0 ≤ fp.exp ∧
+      (extendedToFloat F fp = roundNE F.fmt num den ∨ extendedToFloat F fp + 1 = roundNE F.fmt num den) := by
+  have hf := lay.wf
+  have hfp : F.fmt.p = p := by rw [lay.fmt]
+  obtain ⟨lg, hlg⟩ := isPow2Base_of base hb
+  have hbpos : 0 < base := by rw [hlg.1]; exact Nat.two_pow_pos _
+  have hden : ∀ m, 0 < (powFrac base n.exponent m).2 := by
+    intro m; unfold powFrac; split
+    · exact Nat.one_pos
+    · exact Nat.pow_pos hbpos
+  obtain ⟨fp, a1, a2, a3⟩ := lossy_pow2_exact lay hb n (by omega) he
+  refine ⟨fp, a1, a2, ?_⟩
+  rw [a3]
+  have hmono := roundNE_mono' hf (hden n.mantissa) hd hlo
+  -- (M+1)·base^e = M·base^e · (M+1)/M
+  have hrel : num * (powFrac base n.exponent n.mantissa).2 * n.mantissa ≤
+      (powFrac base n.exponent n.mantissa).1 * den * (n.mantissa + 1) := by
+    have h2 : (powFrac base n.exponent (n.mantissa + 1)).2 = (powFrac base n.exponent n.mantissa).2 := by
+      unfold powFrac; split <;> rfl
+    have h1 : (powFrac base n.exponent (n.mantissa + 1)).1 * n.mantissa =
+        (powFrac base n.exponent n.mantissa).1 * (n.mantissa + 1) := by
+      unfold powFrac; split
+      · simp only []; ring
+      · simp only []; ring
+    rw [h2] at hhi
+    have := Nat.mul_le_mul_right n.mantissa (Nat.le_of_lt hhi)
+    calc num * (powFrac base n.exponent n.mantissa).2 * n.mantissa
+        ≤ (powFrac base n.exponent (n.mantissa + 1)).1 * den * n.mantissa := this
+      _ = (powFrac base n.exponent (n.mantissa + 1)).1 * n.mantissa * den := by ring
+      _ = (powFrac base n.exponent n.mantissa).1 * (n.mantissa + 1) * den := by rw [h1]
+      _ = (powFrac base n.exponent n.mantissa).1 * den * (n.mantissa + 1) := by ring
+  have hstep := roundNE_step hf (hden n.mantissa) hd (by rw [hfp]; exact hM) hrel
+  omega
 
 /-- proved part: the lossy answer is the correctly rounded float of the **truncated** value, hence never
 above the correctly rounded float of the true value, and the latter is at most that of `(M+1)·base^e` -/
